@@ -234,7 +234,17 @@ func init() {
 				}
 				t := p + "$domain=x.org"
 				if g.Chance(1, 4) {
-					t += ",match-case"
+					// case-sensitive rules with capitals in their literals: the shortcut is lower-cased, the URL is not
+					if g.Bool() {
+						b := []byte(p)
+						for k := range b {
+							if b[k] >= 'a' && b[k] <= 'z' && g.Chance(1, 3) {
+								b[k] -= 32
+							}
+						}
+						p = string(b)
+					}
+					t = p + "$domain=x.org,match-case"
 				}
 				emit("mask\t" + hx(t) + "\t" + encList(subjectsFor(g, p, 5)))
 			}
@@ -280,6 +290,9 @@ func init() {
 			}
 			flags := ""
 			g := &Gen{R: newRand(int64(len(text)) + 7)}
+			// rules whose only modifiers are the generated $domain=x.org[,match-case]: Match on a request from x.org is the
+			// pattern test preceded by the shortcut pre-check — the pre-check must not reject what the pattern accepts
+			plain := strings.HasSuffix(text, "$domain=x.org") || strings.HasSuffix(text, "$domain=x.org,match-case")
 			try := func(u string) {
 				if flags != "" {
 					return
@@ -287,6 +300,12 @@ func init() {
 				_, ok := rule.VerifRegexpMatch(u)
 				if ok && !strings.Contains(strings.ToLower(u), rule.Shortcut) {
 					flags = "!COUNTEREXAMPLE:" + hx(u)
+				}
+				if ok && plain && len(u) <= 4096 && flags == "" {
+					var m bool
+					if pn, _ := protect(func() { m = rule.Match(rules.NewRequest(u, "http://x.org/", rules.TypeOther)) }); !pn && !m {
+						flags = "!PRECHECK-REJECTS-AN-ACCEPTED-URL:" + hx(u)
+					}
 				}
 			}
 			for _, u := range subjects {
